@@ -8,10 +8,11 @@ CONFIGS = ['prod']
 EXPLANATION = (
     'Static decision of necessary structural clauses of C02 on the MIR of every keyspace-actor handler that '
     'both writes storage and folds the replicated set (anchors found by role): '
-    'O1 the set is folded only on the success edge of the storage write (single ops), never on its error edge, and the '
-    'result is inspected; O2 bulk ops fold exactly the ids storage reports as written (Err region: loop over a Filter '
+    'O1 the set is folded only on the success edge of the storage write (single ops), never on its error edge, the result is '
+    'inspected, and once storage accepted the write every path to a return folds the set; O2 bulk ops fold exactly the ids storage reports as written (Err region: loop over a Filter '
     'whose closure is true iff successful_doc_ids contains the id; Ok region: the recorded valid entries; the record is '
-    'pushed only behind the will_apply filter of the iterator handed to storage); O3 a failed purge re-adds exactly the '
+    'pushed only behind the will_apply filter of the iterator handed to storage, nothing drops or adds documents between the record and the '
+    'storage call, and each region runs its fold loop on every path); O3 a failed purge re-adds exactly the '
     'tombstones storage did not remove; O4 will_apply gates the write; G the will_apply gate and the mutators decide with '
     'the same NodeVersions predicate. Does NOT decide value-level agreement (duplicate ids in one bulk call) nor third-party '
     'Storage implementations.')
